@@ -15,7 +15,9 @@ ArgLists == {<< <<"t">> >>, << <<"t", "d">> >>, << <<"t">>, <<"t", "d">> >>, << 
              << <<"t", "f">>, <<"t", "d">> >>, << <<"t", "l1">> >>, << <<"t", "e">>, <<"t", "f">> >>,
              << <<"t", "d">>, <<"t">> >>,
              \* a directory and a single file outside it, in both orders (each path is visited exactly once)
-             << <<"t", "d">>, <<"t", "g">> >>, << <<"t", "g">>, <<"t", "d">> >>}
+             << <<"t", "d">>, <<"t", "g">> >>, << <<"t", "g">>, <<"t", "d">> >>,
+             \* siblings (in the concretisation the name of g begins with the name of f, that of e with that of d)
+             << <<"t", "f">>, <<"t", "g">> >>, << <<"t", "d">>, <<"t", "e">>, <<"t", "g">> >>}
 StripLists == {{}, {<<"t">>}, {<<"t">>, <<"t", "d">>}, {<<"t", "d">>}, {<<"t", "l1">>, <<"t", "d">>}}
 
 VARIABLES flav,     \* [l1, l2] link flavours (concretisation only)
